@@ -107,7 +107,7 @@ fn acosd(rcos: f32) -> f32 {
 /// month [1-12]
 /// day [1-31]
 pub fn nday_from_md(month: u32, day: u32) -> u32 {
-    assert!(month < 13 && day < 31);
+    assert!(month < 13 && day <= 31);
     let past_months_days: u32 = MONTH_DAYS[..(month - 1) as usize].iter().sum();
     past_months_days + day
 }
@@ -263,7 +263,7 @@ pub fn azimuth_sol_from_data(declination: f32, hourangle: f32, altsol: f32, lati
         + sind(latitude) * cosd(declination) * cosd(180.0 - hourangle))
         / cos1;
 
-    let azimaux = asind(cosd(declination) * sind(180.0 - hourangle)) / cos1;
+    let azimaux = asind((cosd(declination) * sind(180.0 - hourangle) / cos1).clamp(-1.0, 1.0));
 
     if sin_azimaux1 >= 0.0 && cos_azimaux1 > 0.0 {
         180.0 - azimaux
